@@ -259,7 +259,7 @@ Proof. exact average_b64_history. Qed.
 
 (* the same about the OnlineAverage code as written (gen/SrcStats.v run at the binary64 dictionary), with hypotheses on
    the inputs only: precision in [1e-6, 1], window 1..64, |value * multiplier| <= 1e8 for every value fed *)
-Theorem C16_average_binary64_code : forall (p : R) W (ops : list (oop R)), (0 < W)%nat -> (W <= 64)%nat ->
+Theorem C16_source_average_binary64_code : forall (p : R) W (ops : list (oop R)), (0 < W)%nat -> (W <= 64)%nat ->
   (2 / 2000001 <= p <= 1)%R ->
   let mult := o_multiplier B64Ops p in
   values_bounded mult ops ->
@@ -285,7 +285,7 @@ Theorem C16_average_binary64_variance_error : forall W h (m : Z), (2 <= W)%nat -
 Proof. exact variance_b64_history. Qed.
 
 (* and about the OnlineVariance code as written, hypotheses on the inputs only *)
-Theorem C16_average_binary64_variance_code : forall (p : R) W (ops : list (oop R)), (2 <= W)%nat -> (W <= 64)%nat ->
+Theorem C16_source_average_binary64_variance_code : forall (p : R) W (ops : list (oop R)), (2 <= W)%nat -> (W <= 64)%nat ->
   (2 / 2000001 <= p <= 1)%R ->
   let mult := o_multiplier B64Ops p in
   values_bounded mult ops ->
@@ -316,9 +316,9 @@ Definition C16_real_and_binary64_group := (@C16_source_tie_average_is_mean,
   @C16_average_binary64_truncated_sample,
   @C16_average_binary64_conversions_exact,
   @C16_average_binary64_no_drift,
-  @C16_average_binary64_code,
+  @C16_source_average_binary64_code,
   @C16_average_binary64_variance_error,
-  @C16_average_binary64_variance_code).
+  @C16_source_average_binary64_variance_code).
 Print Assumptions C16_real_and_binary64_group.
 
 (* ---- the defects that were repaired (models of the code before the fix:, kept as documentation) ---- *)
